@@ -99,6 +99,7 @@ pub fn plans(ctx: &WorkerCtx) -> Vec<Plan> {
     let af = |pairs: bool| -> Box<dyn Fn(&Cfg) -> Alphabet + Sync> { Box::new(move |c: &Cfg| super::c05::alphabet(c.machines.len(), vec![0], pairs)) };
     v.push(Plan { name: "no machines".into(), cfgs: vec![Cfg::new("[] fw(0.5,0.5)", vec![], 0.5, 0.5)], alpha_for: af(true), opts: Opts { depth: 2, ..base.clone() }, walk: None });
     v.push(Plan { name: "P-BIG: heavy-tailed / huge timeouts and durations, extreme RNG words".into(), cfgs: fam::singles(&big, &[(0.0, 0.0)]), alpha_for: af(false), opts: Opts { depth: if q { 2 } else { 3 }, n32: 4, n64: 4, ..base.clone() }, walk: None });
+    v.push(Plan { name: "P-BIG Binomial with a start above one day (central RNG words)".into(), cfgs: fam::singles(&fam::p_big_binomial(), &[(0.0, 0.0)]), alpha_for: af(false), opts: Opts { depth: 2, n32: 2, m64_words: Some(vec![0xAAAA_AAAA_AAAA_AAAA, 0x5555_5555_5555_5555]), ..base.clone() }, walk: None });
     v.push(Plan { name: "one machine".into(), cfgs: fam::singles(&lib, &fr[..1]), alpha_for: af(false), opts: Opts { depth: if q { 3 } else { 5 }, ..base.clone() }, walk: None });
     v.push(Plan { name: "two machines, batches of 0..2 events + long batches".into(), cfgs: fam::pairs_strided(&lib, 31, 7, &fr).into_iter().step_by(if q { 3 } else { 1 }).collect(), alpha_for: af(true), opts: Opts { depth: if q { 1 } else { 2 }, ..base.clone() }, walk: None });
     v.push(Plan { name: "two machines, singles, deeper".into(), cfgs: fam::pairs_strided(&lib, 17, 5, &fr), alpha_for: af(false), opts: Opts { depth: if q { 2 } else { 4 }, ..base.clone() }, walk: None });
